@@ -383,3 +383,68 @@ Theorem flv_audio_dec_total bs x : wf_bytes bs -> audio_dec bs <> Panic x.
 Proof. intros _. apply audio_dec_total. Qed.
 Theorem flv_video_dec_total bs x : wf_bytes bs -> video_dec bs <> Panic x.
 Proof. intros _. apply video_dec_total. Qed.
+
+(* ---------- histories on one packager pair ---------- *)
+(* every result is a function of its own call: the packagers have no state *)
+Theorem prun_map st ops : prun st ops = map (fun o => snd (pstep tt o)) ops.
+Proof.
+  revert st. induction ops as [|o r IH]; intros st; [reflexivity|].
+  cbn [prun map]. destruct st. cbn [pstep snd]. now rewrite IH.
+Qed.
+
+Theorem prun_app st a b : prun st (a ++ b) = prun st a ++ prun st b.
+Proof. rewrite !prun_map. apply map_app. Qed.
+
+(* results of earlier calls are unaffected by later calls *)
+Theorem prun_prefix st ops later : firstn (length ops) (prun st (ops ++ later)) = prun st ops.
+Proof.
+  rewrite prun_app. rewrite <- (map_length (fun o => snd (pstep tt o)) ops), <- prun_map.
+  rewrite firstn_app, Nat.sub_diag, firstn_all. cbn [firstn]. apply app_nil_r.
+Qed.
+
+(* the sharing Decode has today, stated exactly: the decoded Raw is the tail of the tag *)
+Lemma prefix_before_app pre raw : prefix_before (pre ++ raw) raw = pre.
+Proof.
+  unfold prefix_before. rewrite lenN_app.
+  replace (N.to_nat (lenN pre + lenN raw - lenN raw)) with (length pre) by (rewrite !lenN_length; lia).
+  now rewrite take_exact.
+Qed.
+
+Theorem audio_dec_raw_suffix b f : audio_dec b = Ok f -> b = prefix_before b (a_raw f) ++ a_raw f.
+Proof.
+  intros Hd.
+  assert (H : exists pre, b = pre ++ a_raw f).
+  { unfold audio_dec in Hd. destruct b as [|b0 [|b1 p]]; try discriminate Hd.
+    rewrite lenN_cons2 in Hd. cbn [idx nth_error bind] in Hd.
+    destruct (_ =? aAAC).
+    { cbn [slice_from drop bind] in Hd. inversion Hd. exists [b0; b1]. reflexivity. }
+    destruct (_ =? aOpus).
+    2:{ cbn [slice_from drop bind] in Hd. inversion Hd. exists [b0]. reflexivity. }
+    cbn [slice_from drop bind] in Hd.
+    destruct (has_flag b1 tSR).
+    - destruct p as [|r q]; [discriminate Hd|]. rewrite lenN_cons1 in Hd.
+      cbn [idx nth_error slice_from drop bind] in Hd.
+      destruct (has_flag b1 tAL).
+      + destruct q as [|l0 [|l1 q']]; try discriminate Hd.
+        rewrite lenN_cons2 in Hd. cbn [idx nth_error slice_from drop bind] in Hd.
+        inversion Hd. exists [b0; b1; r; l0; l1]. reflexivity.
+      + cbn [bind] in Hd. inversion Hd. exists [b0; b1; r]. reflexivity.
+    - cbn [bind] in Hd. destruct (has_flag b1 tAL).
+      + destruct p as [|l0 [|l1 q']]; try discriminate Hd.
+        rewrite lenN_cons2 in Hd. cbn [idx nth_error slice_from drop bind] in Hd.
+        inversion Hd. exists [b0; b1; l0; l1]. reflexivity.
+      + cbn [bind] in Hd. inversion Hd. exists [b0; b1]. reflexivity. }
+  destruct H as (pre & ->). now rewrite prefix_before_app.
+Qed.
+
+Theorem video_dec_raw_suffix b f : video_dec b = Ok f -> b = prefix_before b (v_raw f) ++ v_raw f.
+Proof.
+  intros Hd.
+  assert (H : exists pre, b = pre ++ v_raw f).
+  { unfold video_dec in Hd. destruct b as [|p0 [|p1 [|p2 [|p3 [|p4 rest]]]]]; try discriminate Hd.
+    rewrite lenN_ge5 in Hd. cbn [idx nth_error bind] in Hd.
+    destruct (is_avc_hevc _); cbn [slice_from drop bind] in Hd; inversion Hd.
+    - exists [p0; p1; p2; p3; p4]. reflexivity.
+    - exists [p0]. reflexivity. }
+  destruct H as (pre & ->). now rewrite prefix_before_app.
+Qed.
